@@ -30,6 +30,9 @@ pub struct ReadPlan {
     /// serve as many bytes as the caller's buffer takes (bounded by `cuts`), instead of 1
     #[serde(default)]
     pub greedy: bool,
+    /// io::ErrorKind of the injected read failure ("" = Other)
+    #[serde(default)]
+    pub error_kind: String,
     /// after `prefix`, serve this repeated forever (endless input) up to `horizon` bytes
     pub endless_tail: Option<Vec<u8>>,
     pub horizon: usize,
@@ -203,7 +206,19 @@ impl Read for FaultyReader {
                     }
                 }
                 st.errored = true;
-                return Err(io::Error::new(io::ErrorKind::Other, "injected read failure"));
+                let kind = match self.plan.error_kind.as_str() {
+                    "BrokenPipe" => io::ErrorKind::BrokenPipe,
+                    "ConnectionReset" => io::ErrorKind::ConnectionReset,
+                    "ConnectionAborted" => io::ErrorKind::ConnectionAborted,
+                    "UnexpectedEof" => io::ErrorKind::UnexpectedEof,
+                    "TimedOut" => io::ErrorKind::TimedOut,
+                    "WouldBlock" => io::ErrorKind::WouldBlock,
+                    "InvalidData" => io::ErrorKind::InvalidData,
+                    "PermissionDenied" => io::ErrorKind::PermissionDenied,
+                    "NotFound" => io::ErrorKind::NotFound,
+                    _ => io::ErrorKind::Other,
+                };
+                return Err(io::Error::new(kind, "injected read failure"));
             }
         }
         if self.intr_done_at != Some(self.pos) && self.plan.interrupts.contains(&self.pos) {
